@@ -163,6 +163,17 @@ pub enum Enc {
     /// the name field at Pos is replaced by a pointer to this absolute offset
     PtrAt(Pos, u16),
 }
+/// Header count fields vs. what the body really contains.
+#[derive(Clone, Copy, Debug, PartialEq, Eq, Hash, PartialOrd, Ord)]
+pub enum Cnt {
+    Honest,
+    /// QDCOUNT overwritten with this value, body unchanged
+    Qd(u16),
+    /// ANCOUNT = 0 although the answer records are present
+    An0,
+    /// ANCOUNT = records present + 2
+    AnMore,
+}
 #[derive(Clone, Copy, Debug, PartialEq, Eq, Hash, PartialOrd, Ord)]
 pub struct RSpec {
     pub src: Src,
@@ -175,6 +186,7 @@ pub struct RSpec {
     pub enc: Enc,
     /// DNS payload truncated to this many octets (UDP length adjusted)
     pub cut: Option<u16>,
+    pub cnt: Cnt,
 }
 
 pub struct NameSet {
@@ -456,6 +468,15 @@ pub fn build_payload(ns: &NameSet, qtype: u16, spec: &RSpec, txid: u16, result_s
         a.buf[at + 1] = off as u8;
     }
     let mut out = a.buf;
+    match spec.cnt {
+        Cnt::Honest => {}
+        Cnt::Qd(n) => out[4..6].copy_from_slice(&n.to_be_bytes()),
+        Cnt::An0 => out[6..8].copy_from_slice(&[0, 0]),
+        Cnt::AnMore => {
+            let n = recs.len() as u16 + 2;
+            out[6..8].copy_from_slice(&n.to_be_bytes())
+        }
+    }
     if let Some(c) = spec.cut {
         out.truncate(c as usize);
     }
